@@ -4,6 +4,7 @@ import (
 	"fmt"
 	"go/token"
 	"go/types"
+	"sort"
 	"strings"
 
 	"golang.org/x/tools/go/ssa"
@@ -22,6 +23,7 @@ func propC10() *Property {
 			{ID: "C10.R3", Title: "slot/source index agreement, order of concatenation, remainder request", Floor: 3, Run: c10R3},
 			{ID: "C10.R4", Title: "continuation shape", Floor: 3, Run: c10R4},
 			{ID: "C10.R5", Title: "the following page is first for a collection and next for a page, never the other way round", Floor: 2, Run: c10R5},
+			{ID: "C10.R6", Title: "harvesting reads the collection and never changes it", Floor: 1, Run: c10R6},
 		},
 	}
 }
@@ -667,4 +669,29 @@ func c10R5(c *Ctx) {
 		})
 	}
 	c.check(n >= 1, fname+"/following-page-stores", P.Pos(ctor.Pos()), fname, fmt.Sprintf("%d stores of the continuation link", n), "the constructor no longer records the following page")
+}
+
+// c10R6: the answer to "the next n items from offset k" must not depend on what
+// was asked before: Harvest and everything it calls write nothing that is
+// reachable from the collection (a remembered answer, a cursor, a counter) and
+// no package-level state. Writes to memory allocated by the call itself are
+// fine.
+func c10R6(c *Ctx) {
+	P := c.P
+	E := NewEffects(P)
+	for _, name := range []string{"Harvest", "harvestWithEmptyCount"} {
+		h := P.MethodOpt("servitor/pub", "Collection", name)
+		if h == nil {
+			continue
+		}
+		var bad []string
+		for r, pos := range E.Writes(h) {
+			if strings.HasPrefix(r, "param:0") || strings.HasPrefix(r, "global:") {
+				bad = append(bad, r+" at "+pos)
+			}
+		}
+		sort.Strings(bad)
+		c.check(len(bad) == 0, FuncName(h)+"/collection-readonly", P.Pos(h.Pos()), FuncName(h),
+			"harvesting writes only memory of its own", "harvesting writes through the collection or to package-level state ("+strings.Join(bad, "; ")+"): what a request returns then depends on the requests made before it (items skipped, repeated, or the chain ended early)")
+	}
 }
